@@ -554,6 +554,15 @@ type tvStats struct {
 	SolverSeconds                                                                                         float64
 	NotEncodedWhy                                                                                         map[string]int
 	PerGroup                                                                                              map[string]map[string]int
+	Fixed                                                                                                 map[string][]tvFixedSrc
+}
+
+// a file with a suggestion applied, kept for the re-analysis step of C09
+type tvFixedSrc struct {
+	Src  string
+	Off  int
+	Cand *tvCand
+	Rule *irRule
 }
 
 func (s *tvStats) group(g, k string, n int) {
@@ -967,7 +976,7 @@ func runRuleTV(prop string) func(rc *runCtx, ev *evidence) (int, bool) {
 			return 0, true
 		}
 		quick := rc.tier != "thorough"
-		st := &tvStats{NotEncodedWhy: map[string]int{}, PerGroup: map[string]map[string]int{}}
+		st := &tvStats{NotEncodedWhy: map[string]int{}, PerGroup: map[string]map[string]int{}, Fixed: map[string][]tvFixedSrc{}}
 		// 1. the grid
 		byGroup := map[string][]*tvCand{}
 		var groups []string
@@ -1097,6 +1106,41 @@ func runRuleTV(prop string) func(rc *runCtx, ev *evidence) (int, bool) {
 							fmu.Lock()
 							findings = append(findings, f)
 							fmu.Unlock()
+						}
+					}
+				}
+				// C09: re-analysing the fixed file no longer reports that diagnostic at that place
+				st.mu.Lock()
+				fixed := st.Fixed[g]
+				st.mu.Unlock()
+				if prop == "C09" && len(fixed) > 0 {
+					var srcs []string
+					for i := range fixed {
+						fixed[i].Off = strings.Index(fixed[i].Src, "func target()")
+						srcs = append(srcs, fixed[i].Src)
+					}
+					again, err := runRealised(g, nil, srcs, "")
+					if err == nil {
+						byFile := map[string]realResult{}
+						for _, r := range again {
+							byFile[filepath.Base(r.File)] = r
+						}
+						for i, fx := range fixed {
+							r, ok := byFile[fmt.Sprintf("cand%03d.go", i)]
+							if !ok || r.Status != "OK" {
+								continue
+							}
+							st.group(g, "fixed_files_reanalysed", 1)
+							var ws []tvWarning
+							json.Unmarshal([]byte(r.JSON), &ws)
+							for _, w := range ws {
+								if tvMessageFits(fx.Rule, w.Text) && w.Offset >= fx.Off && tvSameStart(fx, w.Offset) {
+									fmu.Lock()
+									findings = append(findings, tvFinding{Prop: "C09", Group: g, Class: "still-reported:" + tvRuleKey(fx.Cand), Src: fx.Src,
+										Detail: fmt.Sprintf("after applying the suggestion the rule reports again at the same place: %q (rules.go:%d, pattern `%s`, matched `%s`)", w.Text, fx.Rule.Line, fx.Cand.Pattern, fx.Cand.Code)})
+									fmu.Unlock()
+								}
+							}
 						}
 					}
 				}
@@ -1230,6 +1274,9 @@ func tvJudge(prop string, c *tvCand, w tvWarning, rules []irRule, st *tvStats) [
 				out = append(out, *f)
 			} else {
 				st.group(g, "suggestions_type_checked", 1)
+				st.mu.Lock()
+				st.Fixed[g] = append(st.Fixed[g], tvFixedSrc{Src: tvReimport(c.Src[:c.Off]+sugg+c.Src[end:], c.Env), Cand: c, Rule: rule})
+				st.mu.Unlock()
 			}
 		case "equiv":
 			fixed := c.Src[:c.Off] + sugg + c.Src[end:]
@@ -1712,4 +1759,17 @@ func replayRuleTV(rc *runCtx, path string, data []byte) int {
 		return 2
 	}
 	return 0
+}
+
+// tvSameStart tells whether off is where the substituted code starts in the fixed file:
+// the text before it equals the text before the matched code in the original file, up to
+// the import block (which may have changed).
+func tvSameStart(fx tvFixedSrc, off int) bool {
+	c := fx.Cand
+	i := strings.Index(c.Src, "func target()")
+	j := strings.Index(fx.Src, "func target()")
+	if i < 0 || j < 0 {
+		return false
+	}
+	return off-j == c.Off-i
 }
